@@ -193,7 +193,7 @@ def eval_point(pt, R):
         if p == pmax or p == 1 or 'p' in pt:
             R.calls()
             try:
-                o = spectrum.pburg(x, p)
+                o = spectrum.pburg(x, p, sampling=1.0 if p % 2 else 4.0)
                 o()
                 R.check(close(np.asarray(o.ar), a, 1e-12, 1e-14) and abs(o.rho - rho) <= 1e-12 * abs(rho) and close(np.asarray(o.reflection), k, 1e-12, 1e-14), 'pburg', feats, ptp,
                         [o.ar, o.rho], [a, rho], 'pburg.ar/.rho/.reflection differ from arburg')
